@@ -211,7 +211,8 @@ def execute(hist):
                 before = view_tree(view)
                 before_snap = canon.snapshot(view)
                 try:
-                    signac.Project(pd).create_linked_view(prefix=view, **kwargs)
+                    # the prefix is spelled with a trailing separator at every other step (same directory)
+                    signac.Project(pd).create_linked_view(prefix=view + os.sep if k % 2 else view, **kwargs)
                     exc = None
                 except Exception as e:  # noqa
                     exc = e
